@@ -33,10 +33,15 @@ Fixpoint run (f : frame) : outcome * list (N * N * bool) :=
   end.
 
 (* ---- the shapes of the library -------------------------------------------------------------- *)
-(* any ordinary function (query, immediate, submission of a batched one, swapDone, Init):
+(* any ordinary function (query, immediate, submission of a batched one, swapDone, multiSwapDone):
    Invoke's deferred recover around routing, authentication and the body *)
 Definition shape_plain (route auth body : bool) : frame :=
   Recover (Seq [Leaf (0, 1)%N route; Leaf (0, 2)%N auth; Leaf (0, 3)%N body]).
+
+(* Init has NO recover of its own (cc_core_init_invoke.go): creator check, decoding / validating the
+   configuration, saving it *)
+Definition shape_init (creator validate save : bool) : frame :=
+  Seq [Leaf (0, 1)%N creator; Leaf (0, 2)%N validate; Leaf (0, 3)%N save].
 
 Definition items (base : N) (wrap : frame -> frame) (ps : list bool) : list frame :=
   List.map (fun ip => wrap (Leaf (base, N.of_nat (fst ip)) (snd ip))) (combine (seq 0 (length ps)) ps).
